@@ -503,6 +503,8 @@ func (n *normaliser) pureFunc(f *types.Func) bool {
 			(recv == "Request" && f.Name() == "Context")
 	case "net/textproto":
 		return recv == "" && f.Name() == "CanonicalMIMEHeaderKey"
+	case "fmt":
+		return recv == "" && (f.Name() == "Sprintf" || f.Name() == "Sprint" || f.Name() == "Sprintln")
 	case "errors":
 		return f.Name() == "Is"
 	case "time":
@@ -531,6 +533,36 @@ func (n *normaliser) pureFunc(f *types.Func) bool {
 }
 
 func (n *normaliser) pureBody(f *types.Func) bool {
+	if sig := f.Type().(*types.Signature); sig.Recv() != nil {
+		if iface, ok := sig.Recv().Type().Underlying().(*types.Interface); ok {
+			// a method of a first-party interface is pure when every first-party implementation is
+			impls := 0
+			scope := n.pkg.Types.Scope()
+			for _, name := range scope.Names() {
+				tn, ok := scope.Lookup(name).(*types.TypeName)
+				if !ok || tn.IsAlias() {
+					continue
+				}
+				named, ok := tn.Type().(*types.Named)
+				if !ok || types.IsInterface(named) || named.TypeParams().Len() > 0 {
+					continue
+				}
+				for _, t := range []types.Type{named, types.NewPointer(named)} {
+					if !types.Implements(t, iface) {
+						continue
+					}
+					obj, _, _ := types.LookupFieldOrMethod(t, true, n.pkg.Types, f.Name())
+					m, _ := obj.(*types.Func)
+					if m == nil || !n.pureFunc(m) {
+						return false
+					}
+					impls++
+					break
+				}
+			}
+			return impls > 0
+		}
+	}
 	fd := n.p.Decl(f)
 	if fd == nil || fd.Body == nil || n.p.PkgOf(fd) != n.pkg {
 		return false
